@@ -28,6 +28,8 @@ PAYLOAD = [
     "</svg><img onerror=a>", "</math><img onerror=a>", "<b style=\"background:url(javascript:a)\">x", "<b style=\"color: URL(1)\">x", "<script>alert(1)</script>", "&lt;img onerror=a&gt;", "<iframe src=javascript:a>", "<a xlink:href=\"javascript:a\">x</a>",
     "<svg><a xlink:href=\"javascript:a\">x</a></svg>", "<math href=\"javascript:a\">x</math>", "<img src=\"data:text/html,x\">", "<img src=\"data:image/png,x\">", "<b id=\"x", "x<", "<textarea></textarea><img onerror=a>", "<mglyph><style><img onerror=a>",
     "<table><style><img onerror=a>", "<select><style><img onerror=a>", "<p>a<table>b<td>c", "<br onclick=a>", "<font color=red size=`x`onmouseover=a>", "<a href=x`y title=`z>", "<p title=a/>", "\x00<img\x00onerror=a>",
+    "<a href=\"javascript&amp;colon;alert(1)\">x</a>", "<a href=\"&amp;#106;avascript:alert(1)\">x</a>", "<p title=\"&amp;lt;img/onerror=a&amp;gt;\" id=a&amp;amp;lt;b>", "<a href=\"javascript:1\" ping=\"javascript:2\">x</a>",
+    "<img src=\"javascript:1\" lowsrc=\"vbscript:2\" longdesc=\"data:text/html,3\" usemap=\"javascript:4\">", "<a href=\"&amp;Tab;javascript&amp;NewLine;:a\">x</a>",
 ]
 NC, NO, NP = len(CONTAINERS), len(OPEN), len(PAYLOAD)
 O1 = P("o1", None)
@@ -69,8 +71,10 @@ def _safe(node, doc_mode, problems):
 from engine import findings
 KF_NS = findings.active("C10-namespace-confusion-after-escaped-integration-point")
 
-def sig_nsconfusion(**kw):
-    return True
+def sig_nsconfusion(ci, o1, o2, pi, omit, qmode, scr1, scr2, remode, walker_dom, **_):
+    """the ONLY problems of the re-parsed tree are names that are allow-listed under another namespace"""
+    probs = _problems(ci, o1, o2, pi, omit, qmode, scr1, scr2, remode, walker_dom)
+    return len(probs) > 0 and all(p.startswith("nsconfusion ") for p in probs)
 
 def roundtrip(ci: int, o1: int, o2: int, pi: int, omit: bool, qmode: int, scr1: bool, scr2: bool, remode: int, walker_dom: bool) -> bool:
     """
@@ -86,6 +90,16 @@ def roundtrip(ci: int, o1: int, o2: int, pi: int, omit: bool, qmode: int, scr1: 
     rm = pick(3, remode)
     omit, scr1, scr2, walker_dom = bool(omit), bool(scr1), bool(scr2), bool(walker_dom)
     with untraced():
+        problems = _pipeline(cont, text, qm, rm, omit, scr1, scr2, walker_dom)
+        if KF_NS:
+            problems = [p for p in problems if not p.startswith("nsconfusion ")]
+        return problems == []
+
+def _problems(ci, o1, o2, pi, omit, qmode, scr1, scr2, remode, walker_dom):
+    return _pipeline(CONTAINERS[ci], OPEN[o1] + OPEN[o2] + PAYLOAD[pi], ("legacy", "spec", "always")[qmode], remode, bool(omit), bool(scr1), bool(scr2), bool(walker_dom))
+
+def _pipeline(cont, text, qm, rm, omit, scr1, scr2, walker_dom):
+    if True:
         kind = "dom" if walker_dom else "etree"
         tree = html5lib.parseFragment(text, container=cont, treebuilder=kind, scripting=scr1)
         s = serializer.HTMLSerializer(sanitize=True, omit_optional_tags=omit, quote_attr_values=qm)
@@ -96,10 +110,7 @@ def roundtrip(ci: int, o1: int, o2: int, pi: int, omit: bool, qmode: int, scr1: 
             t2 = html5lib.parseFragment(out, container="div", treebuilder="dom", scripting=scr2)
         else:
             t2 = html5lib.parse(out, treebuilder="dom", scripting=scr2)
-        problems = _safe(t2, rm == 2, [])
-        if KF_NS:
-            problems = [p for p in problems if not p.startswith("nsconfusion ")]
-        return problems == []
+        return _safe(t2, rm == 2, [])
 
 def context_agreement():
     """CONCRETE lemma over the allow-list (finite table, not a solver result): for no allow-listed element do the serializer's
